@@ -175,7 +175,7 @@ def run(tier):
                       "comparison modulo the writer's symmetries (a-b = b-a, reversed angles / dihedrals); charges and masses compared as floats"]
     G = "FF_Gq" if quick else "FF_Gt"
     ck.stage("TLC: model + exports + deviations (concurrently)")
-    asis_cfg = "FF_asis.cfg" if u.OPEN else None       # runs with the open deviations on: only when a finding is open
+    asis_cfg = "FF_asis.cfg" if u.OPEN[PROP] else None       # runs with the open deviations on: only when a finding is open
     jobs = [(G, "FF_export.cfg", {"workers": 6, "timeout": 1500}), ("FF_S", "FF_export.cfg", {"workers": 2}),
             ("FF_M", "FF_export.cfg", {"workers": 2}), ("FF_Gsmall", "FF_G_small.cfg", {"workers": 2}), ("FF_X", "FF_export.cfg", {"workers": 2})]
     if asis_cfg:
